@@ -11,6 +11,27 @@ KINDS = ["loop", "if", "foreach", "until"]
 CONFIGS = [("compile", True), ("debug", True), ("compile", True), ("debug", False), ("compile", True), ("debug", "alternate")]
 
 
+def scratch_family(ks, last, arr_at_end=True, rng=None):
+    """flushed batches of k register-outcome measurements + array-stored measurement(s) on one qubit, then
+    a batch of `last` register-outcome measurements.  Deterministic form: the array measurement comes last
+    (it takes the lowest M register the register outcomes left: a different one in every batch)"""
+    prog = [["newarr", 0, 1, [0]], ["newq", 0]]
+    r = 0
+    for k in ks:
+        batch = []
+        for _ in range(k):
+            batch.append(["measreg", 0, 1, r])
+            r += 1
+        pos = [len(batch)] if arr_at_end else sorted(rng.randint(0, len(batch)) for _ in range(rng.randint(1, 2)))
+        for p in reversed(pos):
+            batch.insert(p, ["measfut", 0, 1, 0, ["c", 0]])
+        prog += batch + [["flush"]]
+    for _ in range(last):
+        prog.append(["measreg", 0, 1, r])
+        r += 1
+    return prog + [["flush"]]
+
+
 def outcome_sequence(n, flush_every):
     """n measurements whose outcome stays in a register and is never looked at, a flush after every k-th"""
     prog = []
@@ -38,6 +59,10 @@ def oracle(steps, err, prog):
         if prog[i][0] == "flush" and i < len(mu) and mu[i]:
             return i, (f"M registers {mu[i]} are still claimed after a flush: register outcomes are handed over at "
                        f"the flush, a connection that flushes must get all 16 back (they pile up otherwise)")
+        ms_ = getattr(sc.run_sequence, "mscr", None) or []
+        if prog[i][0] == "flush" and i < len(ms_) and ms_[i]:
+            return i, (f"M registers {ms_[i]} are still marked as scratch after a flush: a register outcome never takes a "
+                       f"scratch register, so batches that end with an array measurement take the M registers away one by one")
     return None
 
 
@@ -79,11 +104,12 @@ def run(ctx):
                 "assemble + reset, nothing sent) and on the SDK's DebugConnection through the real conn.flush with "
                 "block=True / False / alternating (no controller answers: no register outcome ever becomes readable, and "
                 "the harness reads none); 40 register-outcome measurements never read, flushed after every 1st / 3rd, in "
-                "all four configurations; plus towers of "
+                "all four configurations; flushed batches of k register outcomes + an array-stored measurement, k = 15..1, "
+                "then 9..16 register outcomes (and random batch sizes / positions); plus towers of "
                 "12..22 open operations (agreement on failure).  After each top-level statement the real "
                 "MemoryManager._active_registers, the peak number of simultaneously active registers and "
                 "success/failure and the M registers in use are compared with Sdk.Lower by vm_compute; the oracle on the "
-                "implementation: nothing active after a completed operation, no M register claimed after a flush, no "
+                "implementation: nothing active after a completed operation, no M register claimed or marked scratch after a flush, no "
                 "failure.  non-trivial = sequence with >= 50 operations; "
                 "distinct = distinct operation sequences")
     ctx.assume += [
@@ -128,7 +154,7 @@ def run(ctx):
         mode, blk = CONFIGS[i % len(CONFIGS)]
         stats.setdefault("configs", {})[f"{mode}/{blk}"] = stats.get("configs", {}).get(f"{mode}/{blk}", 0) + 1
         steps, err, peaks = sc.run_sequence(repo, prog, mode=mode, block=blk)
-        mu = list(sc.run_sequence.mused)
+        mu, ms = list(sc.run_sequence.mused), list(sc.run_sequence.mscr)
         sa.stmt_kinds(prog, stats["kinds"])
         stats["lengths"].append(len(prog))
         stats["flush_every"].append(k)
@@ -141,7 +167,7 @@ def run(ctx):
             ctx.violation(f"{f[1]} (operation {f[0]} of a run of completed operations, nesting <= 4; connection: {mode}, "
                           f"flush(block={blk}))",
                           dict(prog=small, flush_every=k, original_length=len(prog), error=err, mode=mode, block=blk), key=None)
-        cases.append(sc.acase_coq(fd, prog, steps, peaks, mu))
+        cases.append(sc.acase_coq(fd, prog, steps, peaks, mu, ms))
         metas.append(dict(kind="sequence", prog=prog, steps_tail=steps[-3:], err=err, mode=mode, block=blk))
         if i < 2:
             ctx.samples.append(dict(flush_every=k, first_operations=prog[:6], operations=len(prog),
@@ -151,15 +177,32 @@ def run(ctx):
         for k in (1, 3):
             prog = outcome_sequence(40, k)
             steps, err, peaks = sc.run_sequence(repo, prog, mode=mode, block=blk)
-            mu = list(sc.run_sequence.mused)
+            mu, ms = list(sc.run_sequence.mused), list(sc.run_sequence.mscr)
             ctx.note_case(json.dumps([prog, mode, str(blk)]), True)
             f = oracle(steps, err, prog)
             if f is not None:
                 ctx.violation(f"{f[1]} (operation {f[0]}: 40 times q.measure(store_array=False), outcome never read, flush "
                               f"after every {k}; connection: {mode}, flush(block={blk}))",
                               dict(prog=prog[: f[0] + 1], error=err, mode=mode, block=blk), key=None)
-            cases.append(sc.acase_coq(fd, prog, steps, peaks, mu))
+            cases.append(sc.acase_coq(fd, prog, steps, peaks, mu, ms))
             metas.append(dict(kind="outcomes", prog=prog, err=err, mode=mode, block=blk))
+    # batches of k register outcomes + an array-stored measurement, k decreasing, then 9..16 register outcomes
+    fam = [(scratch_family(range(15, 0, -1), last), "k=15..1 then %d" % last) for last in ((9, 16) if quick else range(9, 17))]
+    for _ in range(4 if quick else 40):
+        ks = [rng.randint(1, 15) for _ in range(rng.randint(6, 18))]
+        fam.append((scratch_family(ks, rng.randint(9, 16), arr_at_end=False, rng=rng), "random batches"))
+    for j, (prog, what) in enumerate(fam):
+        mode, blk = [("compile", True), ("debug", True), ("debug", False)][j % 3]
+        steps, err, peaks = sc.run_sequence(repo, prog, mode=mode, block=blk)
+        mu, ms = list(sc.run_sequence.mused), list(sc.run_sequence.mscr)
+        ctx.note_case(json.dumps([prog, mode, str(blk)]), True)
+        f = oracle(steps, err, prog)
+        if f is not None:
+            ctx.violation(f"{f[1]} (operation {f[0]}: flushed batches of register outcomes + array-stored measurement, {what}; "
+                          f"connection: {mode}, flush(block={blk}))",
+                          dict(prog=prog[: f[0] + 1], error=err, mode=mode, block=blk), key=None)
+        cases.append(sc.acase_coq(fd, prog, steps, peaks, mu, ms))
+        metas.append(dict(kind="scratch-family", prog=prog, err=err, mode=mode, block=blk))
     n_tow = 14 if quick else 120
     for i in range(n_tow):
         depth = rng.randint(12, 22)
@@ -200,11 +243,11 @@ def run(ctx):
                                [["futadd", 0, ["c", 0], ["int", 1], None]], rng.randint(5, 15)])
         prog = sa.renumber_arrays([["newarr", 0, 2, [0, 1]]] + prefix + strip(tower) + [["flush"]])
         steps, err, peaks = sc.run_sequence(repo, prog, assemble=False)
-        mu = list(sc.run_sequence.mused)
+        mu, ms = list(sc.run_sequence.mused), list(sc.run_sequence.mscr)
         stats["towers"] += 1
         stats["tower_failures"] += 1 if err else 0
         ctx.note_case(json.dumps(prog), True)
-        cases.append(sc.acase_coq(fd, prog, steps, peaks, mu))
+        cases.append(sc.acase_coq(fd, prog, steps, peaks, mu, ms))
         metas.append(dict(kind="tower", prog=prog, depth=depth, err=err))
         # oracle (C14_statement_compiles): without EPR a tower of depth d needs at most d + 2 registers,
         # whatever was completed before it
